@@ -269,17 +269,17 @@ class Ctx:
 
     def absorb(self, res, engine, test, extra=None):
         """Fold an engine result into the context: divergences → report(), counters, samples."""
-        for dv in res.get("divergences", []):
+        for dv in (res.get("divergences") or []):
             robj = {"property": self.prop, "engine": engine, "test": test, "seed": self.seed,
                     "input": dv.get("input"), "divergence": {k: v for k, v in dv.items() if k != "input"}}
             if extra:
                 robj.update(extra)
             self.report(dv.get("key", "unkeyed"), dv.get("what", ""), robj)
         self.traces_validated += int(res.get("replayed", 0))
-        for s in res.get("samples", [])[:3]:
+        for s in (res.get("samples") or [])[:3]:
             if len(self.samples) < 6:
                 self.samples.append(s)
-        for k, v in res.get("stats", {}).items():
+        for k, v in (res.get("stats") or {}).items():
             if isinstance(v, (int, float)):
                 self.coverage[k] = self.coverage.get(k, 0) + v
             else:
